@@ -458,8 +458,9 @@ func (c *Collection) AddDocument(id uint64, vector []float64, metadata []byte) {
 		log.Panicf("Failed to write record: %v", err)
 	}
 
-	// Add the document's vector to the LSH table
-	c.lshTree.addPoint(id, vector)
+	// Add the document's vector to the LSH table. Index the vector as stored
+	// (after quantization): that is the one splits and removal read back.
+	c.lshTree.addPoint(id, decodeVector(encodedVector, c.DimensionCount, c.Quantization))
 }
 
 /*
